@@ -2,7 +2,7 @@
    Everything here is executable Gallina; no proofs. *)
 From Coq Require Import List NArith ZArith String Bool.
 Import ListNotations.
-From UV Require Import Py.Val Py.Str Py.Utf8 Py.Regex Py.UrlLib Gen.Patterns Ural.TrieDict Ural.Utils Ural.HostnameTrieSet Ural.SuffixTrie Ural.Tld Proofs.SuffixTrieFacts Py.Pct Ural.Quote Spec.C14 Gen.Tables Ural.FormatUrl Ural.InferRedirection Ural.Lru Ural.IsUrl Ural.Predicates Ural.Canonicalize Ural.Normalize Ural.Html.
+From UV Require Import Py.Val Py.Str Py.Utf8 Py.Regex Py.UrlLib Gen.Patterns Ural.TrieDict Ural.Utils Ural.HostnameTrieSet Ural.SuffixTrie Ural.Tld Proofs.SuffixTrieFacts Py.Pct Ural.Quote Spec.C14 Gen.Tables Ural.FormatUrl Ural.InferRedirection Ural.Lru Ural.IsUrl Ural.Predicates Ural.Canonicalize Ural.Normalize Ural.Html Ural.Platforms.
 Open Scope string_scope.
 
 Definition opt_wrap (o : option val) : val :=
@@ -536,6 +536,47 @@ Definition do_html (arg : val) : val :=
   | _ => vbad
   end.
 
+(* ---------------- platform parsers (C19) ---------------- *)
+Definition vrecord (o : option record) : val :=
+  match o with
+  | None => VNone
+  | Some (n, fs) => VL (VS n :: map vstr_opt fs)
+  end.
+
+(* arg: env platform (url ...) -> per url, the answers of the platform's functions in the harness's order *)
+Definition do_platform (arg : val) : val :=
+  match arg with
+  | VL [ev; VS plat; VL urls] =>
+      let e := env_of ev in
+      if str_eqb plat (lit "youtube") then
+        match hts_build e YOUTUBE_DOMAINS hts_empty with
+        | Ok yt =>
+            VL (map (fun u => VL [vres vrecord (parse_youtube_url e yt u true); vres vrecord (parse_youtube_url e yt u false);
+                                  vres vstr_opt (extract_video_id_from_youtube_url e yt u); vres VS (normalize_youtube_url e yt u);
+                                  vres VB (is_youtube_url e yt u)]) (strs_of urls))
+        | Exc x => VErr (lit "TrieBuildFailed")
+        end
+      else if str_eqb plat (lit "facebook") then
+        VL (map (fun u => VL [vres vrecord (parse_facebook_url e u false); vres vrecord (parse_facebook_url e u true);
+                              vres VB (has_facebook_comments e u false); vres VB (has_facebook_comments e u true);
+                              VB (is_facebook_url u); VB (is_facebook_post_url u); vres VB (is_facebook_link e u);
+                              vstr_opt (extract_url_from_facebook_link u); vres VS (convert_facebook_url_to_mobile e u)]) (strs_of urls))
+      else if str_eqb plat (lit "twitter") then
+        VL (map (fun u => VL [vres vrecord (parse_twitter_url e u); vres vstr_opt (extract_screen_name_from_twitter_url e u);
+                              VB (is_twitter_url u)]) (strs_of urls))
+      else if str_eqb plat (lit "instagram") then
+        VL (map (fun u => VL [vres vrecord (parse_instagram_url e u); vres vstr_opt (extract_username_from_instagram_url e u);
+                              VB (is_instagram_url u)]) (strs_of urls))
+      else if str_eqb plat (lit "telegram") then
+        VL (map (fun u => VL [vres vrecord (parse_telegram_url e u); vres vstr_opt (extract_channel_name_from_telegram_url e u);
+                              VB (is_telegram_url u); vres VS (convert_telegram_url_to_public e u)]) (strs_of urls))
+      else if str_eqb plat (lit "google") then
+        VL (map (fun u => VL [vres vrecord (parse_google_drive_url e u); vres vstr_opt (extract_id_from_google_drive_url e u);
+                              vres VB (is_google_link e u); vstr_opt (extract_url_from_google_link u); vres VB (is_amp_url e u)]) (strs_of urls))
+      else vbad
+  | _ => vbad
+  end.
+
 (* ---------------- dispatch ---------------- *)
 Definition table : list (str * (val -> val)) :=
   [ (lit "triedict", do_triedict);
@@ -562,7 +603,8 @@ Definition table : list (str * (val -> val)) :=
     (lit "normalize", do_normalize);
     (lit "fingerprint", do_fingerprint);
     (lit "hostnames", do_hostnames);
-    (lit "html", do_html) ].
+    (lit "html", do_html);
+    (lit "platform", do_platform) ].
 
 Fixpoint find_fn (name : str) (l : list (str * (val -> val))) : option (val -> val) :=
   match l with
